@@ -33,6 +33,10 @@ func Equiv(a, b int) bool { return key(a) == key(b) }
 func Cmp(a, b int) int {
 	v.Tick("cmp")
 	m := v.CfgOr("mag", 1)
+	if m < 0 {
+		// an arbitrary positive magnitude per call: every comparator of the `a - b` style at once
+		m = v.IntIn("cm", 1, 1<<40)
+	}
 	if v.CfgOr("cmp", 0) == 1 {
 		return m * cmp.Compare(key(b), key(a))
 	}
